@@ -22,7 +22,7 @@ func c08Int(c *Ctx) {
 	rounds := 1
 	primeLen := 256
 	if c.Thorough() {
-		rounds = 3
+		rounds = 2
 		primeLen = 512
 	}
 	for i := 0; i < rounds; i++ {
